@@ -1,7 +1,6 @@
 from __future__ import annotations
 
 import functools
-import itertools
 import operator
 
 from packaging.specifiers import InvalidSpecifier as PkgInvalidSpecifier
@@ -18,7 +17,6 @@ from dep_logic.specifiers.generic import GenericSpecifier
 from dep_logic.specifiers.range import RangeSpecifier
 from dep_logic.specifiers.special import AnySpecifier, EmptySpecifier
 from dep_logic.specifiers.union import UnionSpecifier
-from dep_logic.utils import is_not_suffix, version_split
 
 
 def from_specifierset(spec: SpecifierSet) -> VersionSpecifier:
@@ -27,6 +25,20 @@ def from_specifierset(spec: SpecifierSet) -> VersionSpecifier:
     return functools.reduce(
         operator.and_, map(_from_pkg_specifier, spec), RangeSpecifier()
     )
+
+
+def _next_release(version: Version, length: int) -> Version:
+    """Bump the last of the first `length` release segments, keeping the epoch."""
+    release = [*version.release[: length - 1], version.release[length - 1] + 1, 0]
+    epoch = f"{version.epoch}!" if version.epoch else ""
+    return Version(epoch + ".".join(map(str, release)))
+
+
+def _wildcard_bounds(version: str) -> tuple[Version, Version]:
+    prefix = Version(version[: version.index(".*")])
+    epoch = f"{prefix.epoch}!" if prefix.epoch else ""
+    lower = Version(epoch + ".".join(map(str, [*prefix.release, 0])))
+    return lower, _next_release(prefix, len(prefix.release))
 
 
 def _from_pkg_specifier(spec: Specifier) -> VersionSpecifier:
@@ -48,21 +60,12 @@ def _from_pkg_specifier(spec: Specifier) -> VersionSpecifier:
             include_min = True
             include_max = True
         else:
-            version_parts = list(
-                itertools.takewhile(lambda x: x != "*", version_split(version))
-            )
-            min = Version(".".join([*version_parts, "0"]))
-            version_parts[-1] = str(int(version_parts[-1]) + 1)
-            max = Version(".".join([*version_parts, "0"]))
+            min, max = _wildcard_bounds(version)
             include_min = True
             include_max = False
     elif op == "~=":
         min = Version(version)
-        version_parts = list(
-            itertools.takewhile(is_not_suffix, version_split(version))
-        )[:-1]
-        version_parts[-1] = str(int(version_parts[-1]) + 1)
-        max = Version(".".join([*version_parts, "0"]))
+        max = _next_release(min, len(min.release) - 1)
         include_min = True
         include_max = False
     elif op == "!=":
@@ -76,12 +79,7 @@ def _from_pkg_specifier(spec: Specifier) -> VersionSpecifier:
                 simplified=str(spec),
             )
         else:
-            version_parts = list(
-                itertools.takewhile(lambda x: x != "*", version_split(version))
-            )
-            left = Version(".".join([*version_parts, "0"]))
-            version_parts[-1] = str(int(version_parts[-1]) + 1)
-            right = Version(".".join([*version_parts, "0"]))
+            left, right = _wildcard_bounds(version)
             return UnionSpecifier(
                 (
                     RangeSpecifier(max=left, include_max=False),
